@@ -140,8 +140,9 @@ def _validate(ck, exe, lines, owners, meta, depth=0, cfg="TraceStream.cfg", pref
         _validate(ck, exe, lines[end:], owners[end:], meta, depth + 1, cfg=cfg, prefix=prefix)
 
 
-def run(ck):
+def queue_level(ck, cfgs, fuzz_seeds, meta=True):
     quick = ck.tier == "quick"
+    saved = (ck.rule, list(ck.assumptions))
     ck.rule = ("(a) every transition of UnboundedRA's state graph for the listed configurations replayed on the real queue; "
                "(b) seeded random walks (writes incl. oversize, shrinks, reads with random legal load results) ending in a drain; "
                "non-trivial = contains a grow/shrink/switch; distinct by step sequence")
@@ -155,7 +156,9 @@ def run(ck):
         ck.drifted(str(ex))
         k = None
     ck.extra["extracted_constants"] = k
-    for c in (configs(quick) if k else []):
+    if not meta:
+        ck.rule, ck.assumptions = saved[0], saved[1] + ["queue level (shrink): as C02 - RA memory model, retired nodes quarantined"]
+    for c in (cfgs if k else []):
         label = f"cap={c['cap']} max={c['max']}"
         cfg = vlib.write_cfg(vlib.BUILD / "cfg" / f"MC_UnboundedRA_{c['cap']}_{c['max']}.cfg", spsc.ucfg_text(k, c, True, INV))
         r = vlib.tlc("UnboundedRA", cfg, coverage=True, timeout=1700, heap="12g")
@@ -195,7 +198,12 @@ def run(ck):
             b = max(behs, key=lambda x: sum(1 for h in x if h["res"].startswith("switched")))
             ck.sample({"config": label, "behaviour": [[h["t"], h["a"], h["arg"], h["res"]] for h in b]}, cap=4)
     ck.exhaustive = k is not None
-    fuzz(ck, 10 if quick else 100, quick)
+    fuzz(ck, fuzz_seeds, quick)
+
+
+def run(ck):
+    quick = ck.tier == "quick"
+    queue_level(ck, configs(quick), 10 if quick else 100)
 
 
 def replay(ck, path):
